@@ -122,6 +122,15 @@ def _distribute_try(computation_graph: ComputationGraph,
             computation_graph.computation(hostwith[0]).type \
                 == 'VariableComputation':
 
+            if hostwith[0] in var_hosted:
+                # The variable of the model is already hosted (must_host
+                # hint): host the factor with it, do not host it twice.
+                selected = var_hosted[hostwith[0]]
+                mapping[selected].add(n.name)
+                var_hosted[n.name] = selected
+                agents_capa[selected] -= computation_memory(n)
+                continue
+
             dependent_var = [v.name for v in n.factor.dimensions]
             candidates = [a for a in agents_capa
                           if len(set(mapping[a]).intersection(
